@@ -1,8 +1,9 @@
 (* private extraction file of the slice `repair` (development only; see SLICE_GUIDE.md).
-   At integration: coq/Extract.v gets  `From JLS Require Import ... RepairRaw RepairModel.`  and the names
-     RepairModel.rp_open RepairModel.rp_scan RepairModel.rp_apply_log
-   (ocaml/drv_repair.ml uses rp_open, the record rp_result, the type wm_entry, and the float oracles of
-   ocaml/drv_wmodel.ml, which must precede it in ocaml/DRIVERS); the names of Extract_wmodel.v stay. *)
+   At integration: coq/Extract.v gets  `RepairRaw RepairModel`  added to its `From JLS Require Import` line and the names
+     RepairModel.rp_open RepairModel.rp_scan RepairModel.rp_apply_log RepairModel.rp_ends_with_end RepairModel.rp_links_forward
+   added to its Extraction list (ocaml/drv_repair.ml uses rp_open, the record rp_result (fields rp_rc rp_events rp_after
+   rp_fault rp_did rp_uninit_ppl rp_end_off), the type wm_entry, and the float oracles of ocaml/drv_wmodel.ml, which must
+   precede drv_repair.ml in ocaml/DRIVERS); the names of Extract_wmodel.v stay. *)
 From Coq Require Import Extraction ExtrOcamlBasic NArith ZArith QArith Qreduction List.
 From JLS Require Import Generated CrcDefs Spec Format WmRaw WmCore WmTs WmFsr WriterModel RepairRaw RepairModel.
 Extraction Language OCaml.
@@ -12,4 +13,4 @@ Extraction "jlsmodel_ext"
   Spec.str_read
   WriterModel.wm_run WriterModel.wm_run_full WriterModel.wm_step WriterModel.wm_step_rc
   WriterModel.wm_api_open WriterModel.wm_api_close WriterModel.wm_st_log WriterModel.wm_st_fault WriterModel.wm_find_sig
-  RepairModel.rp_open RepairModel.rp_scan RepairModel.rp_apply_log.
+  RepairModel.rp_open RepairModel.rp_scan RepairModel.rp_apply_log RepairModel.rp_ends_with_end RepairModel.rp_links_forward.
